@@ -1105,6 +1105,13 @@ def setup_selection_ref():
     return rewrap(PROP, c10.setup_selection_cases(), "timeout-keeps-the-path")
 
 
+def grounds():
+    from contracts.common import ground_script
+    from pyvc.pack import Ground
+
+    return [Ground(f"{PROP}/sevm.SEVM.run#JUMP-symbolic#bool-destination", ground_script("symbolic_jump_bool_destination.py", "--symbolic-jump with a comparison result (symbolic Bool) as the destination", "a symbolic jump whose destination is a Bool-typed word ends every path with a verdict (an invalid destination is an EVM failure, not an internal exception that aborts the exploration)"), sources=("halmos.sevm:SEVM.run",))]
+
+
 def build_cases(tier="quick"):
     return storage_copy_ref() + setup_selection_ref() + extend_path_cases() + prank_funds_cases() + jumpi_cases() + check_cases() + select_cases() + calldataload_cases() + funds_cases() + alias_cases() + symbolic_jump_cases() + path_cases() + worklist_cases()
 
